@@ -855,7 +855,7 @@ MANIFEST = {
             "model (features, attributes, relations), reopen and empty updates must leave the dump identical, auto-generated "
             "keys must be fresh with respect to every key seen in the history, and the .bak file must equal the pre-operation "
             "dump. The update source is made to fail at every position 0..n (inside and beyond the peek window) and the .bak "
-            "file compared again.",
+            "file compared again. Further case kinds: model-free metamorphic cases for GFF3 and GTF (create + batched updates == one import; deleting the last batch undoes it), scripted multi-line-feature histories under 'merge' across deletes, one delete() call with hundreds of ids, add_relation with the documented hook functions, source-free failpoints raised inside nine internal functions during an update (sys.monitoring), and a comparison of the live handle (look-ups, iteration order, counts, featuretypes) with the file after every step.",
     "note": "Trusted: gvmon/models/history.py. GTF databases are covered by the metamorphic cases only (batched updates of new "
             "genes == single import; deleting a batch undoes it); updates that change existing GTF genes re-infer extents, "
             "which no property fixes, and are not generated. Crash points other than a failing source (e.g. power loss during the "
